@@ -65,10 +65,10 @@ func tagBytes(inst int64, n int) []byte {
 }
 
 type acceptor struct {
-	mu    sync.Mutex
-	seen  map[int64]int
-	stop  chan struct{}
-	done  sync.WaitGroup
+	mu   sync.Mutex
+	seen map[int64]int
+	stop chan struct{}
+	done sync.WaitGroup
 }
 
 // serve accepts tubes on m, reads each to EOF and logs which instance(s) its bytes came from.
@@ -425,6 +425,236 @@ func scenarioLateReq(sc int) {
 	w.Ev("end", "sc", sc, "created", 2)
 }
 
+// scenarioStray: an unreliable tube 0 is open (first one the server creates) while the client writes small messages
+// on a reliable tube through a short blackout.  Nothing was ever written on the unreliable tube: whatever is read
+// from it came from another tube.  The reliable stream must be complete and pure.
+func scenarioStray(sc int, blackout time.Duration) {
+	n, ma, mb := newPair(nil)
+	w.Ev("reset", "sc", sc, "name", "stray-frames-unreliable-0")
+	ub0, err := mb.CreateUnreliableTube(40)
+	if err != nil {
+		return
+	}
+	ta, err := ma.Accept()
+	if err != nil {
+		return
+	}
+	ua0, _ := ta.(*tubes.Unreliable)
+	ra, err := ma.CreateReliableTube(41)
+	if err != nil {
+		return
+	}
+	tb, err := mb.Accept()
+	if err != nil {
+		return
+	}
+	rb := tb.(*tubes.Reliable)
+	var want []byte
+	var got []byte
+	var wg sync.WaitGroup
+	wg.Add(1)
+	go func() {
+		defer wg.Done()
+		buf := make([]byte, 4096)
+		rb.SetReadDeadline(time.Now().Add(20 * time.Second))
+		for {
+			k, err := rb.Read(buf)
+			got = append(got, buf[:k]...)
+			if err != nil {
+				return
+			}
+		}
+	}()
+	msg := func(i int) []byte { return []byte(fmt.Sprintf("<secret-%03d-written-on-the-reliable-tube>", i)) }
+	for i := 0; i < 25; i++ { // warm-up, one message at a time
+		ra.Write(msg(i))
+		want = append(want, msg(i)...)
+		time.Sleep(4 * time.Millisecond)
+	}
+	n.Outage(blackout)
+	for i := 25; i < 33; i++ { // written during the blackout
+		ra.Write(msg(i))
+		want = append(want, msg(i)...)
+		time.Sleep(10 * time.Millisecond)
+	}
+	ra.Close()
+	wg.Wait()
+	// the unreliable tube: nothing was written on it by anybody
+	extra := 0
+	buf := make([]byte, 70000)
+	for _, u := range []*tubes.Unreliable{ub0, ua0} {
+		if u == nil {
+			continue
+		}
+		for {
+			u.SetReadDeadline(time.Now().Add(150 * time.Millisecond))
+			k, _, _, _, err := u.ReadMsgUDP(buf, nil)
+			if err != nil {
+				break
+			}
+			if k > 0 {
+				extra++
+			}
+		}
+	}
+	w.Ev("unrelseq", "sc", sc, "wrote", 0, "got", extra, "intact", yn(extra == 0), "extra", extra, "relbytes", len(got))
+	w.Ev("stream", "sc", sc, "complete", yn(bytes.Equal(got, want)), "got", len(got), "want", len(want))
+	go ma.Stop()
+	go mb.Stop()
+	w.Ev("end", "sc", sc, "created", 2)
+}
+
+// scenarioAcceptBacklog: more tubes are requested than the accept queue holds before the application accepts
+// any; once it does, every tube must be offered (the requests are retransmitted) and carry its own bytes.
+func scenarioAcceptBacklog(sc int) {
+	_, ma, mb := newPair(nil)
+	w.Ev("reset", "sc", sc, "name", "accept-backlog")
+	const N = 128
+	var us []*tubes.Unreliable
+	for i := 0; i < N; i++ {
+		u, err := ma.CreateUnreliableTube(50)
+		if err != nil {
+			w.Ev("createerr", "sc", sc, "what", err.Error())
+			return
+		}
+		us = append(us, u)
+	}
+	time.Sleep(300 * time.Millisecond) // all requests have arrived: the accept queue is full
+	r, err := ma.CreateReliableTube(51)
+	if err != nil {
+		w.Ev("createerr", "sc", sc, "what", err.Error())
+		return
+	}
+	inst := instCtr.Add(1)
+	w.Ev("create", "sc", sc, "end", "A", "id", r.GetID(), "type", 51, "inst", inst, "clash", "no")
+	time.Sleep(200 * time.Millisecond)
+	a := &acceptor{seen: map[int64]int{}}
+	go serve(sc, "B", mb, a)
+	wrote := make(chan error, 1)
+	go func() {
+		_, err := r.Write(tagBytes(inst, 7000))
+		r.Close()
+		wrote <- err
+	}()
+	select {
+	case <-wrote:
+	case <-time.After(8 * time.Second):
+	}
+	time.Sleep(1500 * time.Millisecond)
+	a.mu.Lock()
+	offered := a.seen[inst]
+	a.mu.Unlock()
+	w.Ev("offered", "sc", sc, "inst", inst, "times", offered, "what", "reliable tube requested while the accept queue was full")
+	for _, u := range us {
+		u.Close()
+	}
+	go ma.Stop()
+	go mb.Stop()
+	w.Ev("end", "sc", sc, "created", N+1)
+}
+
+// scenarioSameNumber: a reliable and an unreliable tube with the same number; the reliable one is closed on both
+// sides and reaped; the unreliable one must go on working, and a second unreliable tube must get another id.
+func scenarioSameNumber(sc int) {
+	_, ma, mb := newPair(nil)
+	w.Ev("reset", "sc", sc, "name", "same-number-reap")
+	r, err := ma.CreateReliableTube(61)
+	if err != nil {
+		return
+	}
+	u, err := ma.CreateUnreliableTube(62)
+	if err != nil {
+		return
+	}
+	var rb *tubes.Reliable
+	var ub *tubes.Unreliable
+	for k := 0; k < 2; k++ {
+		t, err := mb.Accept()
+		if err != nil {
+			return
+		}
+		if t.IsReliable() {
+			rb = t.(*tubes.Reliable)
+		} else {
+			ub = t.(*tubes.Unreliable)
+		}
+	}
+	w.Ev("note", "sc", sc, "what", fmt.Sprintf("reliable id %d, unreliable id %d", r.GetID(), u.GetID()))
+	r.Write([]byte("bye"))
+	r.Close()
+	io.ReadAll(rb)
+	rb.Close()
+	waitClosed(r, 5*time.Second)
+	waitClosed(rb, 5*time.Second)
+	time.Sleep(3500 * time.Millisecond) // past the reap delay on both sides
+	// the old unreliable tube still works, in both directions
+	old := []byte("written on the OLD unreliable tube")
+	okAB, okBA := false, false
+	buf := make([]byte, 1000)
+	for try := 0; try < 3 && !okAB; try++ {
+		u.WriteMsgUDP(old, nil, nil)
+		ub.SetReadDeadline(time.Now().Add(300 * time.Millisecond))
+		if k, _, _, _, err := ub.ReadMsgUDP(buf, nil); err == nil && bytes.Equal(buf[:k], old) {
+			okAB = true
+		}
+	}
+	for try := 0; try < 3 && !okBA; try++ {
+		ub.WriteMsgUDP(old, nil, nil)
+		u.SetReadDeadline(time.Now().Add(300 * time.Millisecond))
+		if k, _, _, _, err := u.ReadMsgUDP(buf, nil); err == nil && bytes.Equal(buf[:k], old) {
+			okBA = true
+		}
+	}
+	// a second unreliable tube while the first is still open
+	u2, err := ma.CreateUnreliableTube(63)
+	clash := "no"
+	cross := 0
+	if err == nil {
+		if u2.GetID() == u.GetID() {
+			clash = "yes"
+		}
+		w.Ev("create", "sc", sc, "end", "A", "id", u2.GetID(), "type", 63, "inst", instCtr.Add(1), "clash", clash)
+		var ub2 *tubes.Unreliable
+		acc := make(chan tubes.Tube, 1)
+		go func() {
+			if t, err := mb.Accept(); err == nil {
+				acc <- t
+			}
+		}()
+		select {
+		case t := <-acc:
+			ub2, _ = t.(*tubes.Unreliable)
+		case <-time.After(2 * time.Second):
+		}
+		u.WriteMsgUDP([]byte("OLD again"), nil, nil)
+		u2.WriteMsgUDP([]byte("NEW tube"), nil, nil)
+		time.Sleep(100 * time.Millisecond)
+		for _, pr := range []struct {
+			t    *tubes.Unreliable
+			want string
+		}{{ub, "OLD again"}, {ub2, "NEW tube"}} {
+			if pr.t == nil {
+				cross++
+				continue
+			}
+			for {
+				pr.t.SetReadDeadline(time.Now().Add(150 * time.Millisecond))
+				k, _, _, _, err := pr.t.ReadMsgUDP(buf, nil)
+				if err != nil {
+					break
+				}
+				if k > 0 && string(buf[:k]) != pr.want && !bytes.Equal(buf[:k], old) {
+					cross++
+				}
+			}
+		}
+	}
+	w.Ev("survives", "sc", sc, "ab", yn(okAB), "ba", yn(okBA), "cross", cross)
+	go ma.Stop()
+	go mb.Stop()
+	w.Ev("end", "sc", sc, "created", 3)
+}
+
 func main() {
 	logrus.SetOutput(io.Discard)
 	// watchdog: a driver that cannot finish means some library call never returned
@@ -472,6 +702,10 @@ func main() {
 	launch(scenarioUnreliable)
 	launch(scenarioLateReq)
 	launch(scenarioMixed)
+	launch(func(sc int) { scenarioStray(sc, 500*time.Millisecond) })
+	launch(func(sc int) { scenarioStray(sc, 1200*time.Millisecond) })
+	launch(scenarioAcceptBacklog)
+	launch(scenarioSameNumber)
 	for _, idle := range []time.Duration{0, 1200 * time.Millisecond, 2500 * time.Millisecond} {
 		for _, gap := range []time.Duration{1700 * time.Millisecond, 2500 * time.Millisecond} {
 			idle, gap := idle, gap
